@@ -62,3 +62,49 @@ Theorem C07_tx_reads : forall st ops root' s', EnginePathFacts.db_pages_wf st ->
                                            (EngineTxReads.ovl_lookup (Engine.d_disk st) root' path k).
 Proof. exact EngineTxReads.tx_reads. Qed.
 Print Assumptions C07_tx_reads.
+
+(* ---- cursors inside a write transaction: the overlay as the tree the cursor walks (model/EngineScan.v) ----
+   After ANY list of operations of a write transaction on any state with well-formed pages, at ANY nested bucket path:
+   a full cursor scan through the overlay returns exactly the reference's entries (pairs and nested-bucket markers) in
+   key order; a path that is not a bucket answers the library's error. No fuel hypothesis beyond op_ok. *)
+From Jamm Require EngineScan EngineTxScan EngineTxScanEx EngineReadBridge.
+Import Coq.Strings.String.StringSyntax. Delimit Scope string_scope with string.
+Theorem C07_tx_scan : forall st ops path, EnginePathFacts.db_pages_wf st ->
+  Forall (EnginePathFacts.op_ok (Engine.d_disk st)) ops ->
+  match Spec.get_at path (EngineAbs.sem_tx ops (EngineAbs.abs_db st)) with
+  | Some (Spec.SBucket o x es) => EngineScan.tx_scan st ops path = Engine.Ok (CVal (Spec.items_of (Spec.SBucket o x es)))
+  | Some (Spec.SVal _) => EngineScan.tx_scan st ops path = Engine.Err "IncompatibleValue"%string
+  | None => EngineScan.tx_scan st ops path = Engine.Err "BucketMissing"%string \/
+            EngineScan.tx_scan st ops path = Engine.Err "IncompatibleValue"%string
+  end.
+Proof. exact EngineTxScan.tx_scan_spec. Qed.
+Print Assumptions C07_tx_scan.
+
+(* get / scan / every range / seek through the cursor machine on the overlay = the reference's answers; the overlay may
+   hold leaves the transaction has emptied (they stay in place until commit) *)
+Theorem C07_tx_reads_cursor : forall st ops path o x es, EnginePathFacts.db_pages_wf st ->
+  Forall (EnginePathFacts.op_ok (Engine.d_disk st)) ops ->
+  Spec.get_at path (EngineAbs.sem_tx ops (EngineAbs.abs_db st)) = Some (Spec.SBucket o x es) ->
+  let b := Spec.SBucket o x es in
+  (forall k, EngineScan.tx_cget st ops path k = Engine.Ok (EngineReadBridge.ref_get b k)) /\
+  EngineScan.tx_scan st ops path = Engine.Ok (CVal (Spec.items_of b)) /\
+  (forall lo hi, EngineScan.tx_range st ops path lo hi =
+     Engine.Ok (CVal (filter (fun i => Spec.in_bounds lo hi (Spec.item_key i)) (Spec.items_of b)))) /\
+  (forall k, exists l, EngineScan.tx_seek st ops path k = Engine.Ok (EngineReadBridge.ref_found b k, CVal l) /\
+     if EngineReadBridge.ref_found b k then l = Spec.from_succ k (Spec.items_of b)
+     else l = Spec.from_pred k (Spec.items_of b) \/ l = Spec.from_succ k (Spec.items_of b)).
+Proof. exact EngineTxScan.tx_reads_cursor. Qed.
+Print Assumptions C07_tx_reads_cursor.
+
+(* the engine's own search through the overlay (what put / delete consult) agrees too *)
+Theorem C07_tx_get : forall st ops path k, EnginePathFacts.db_pages_wf st ->
+  Forall (EnginePathFacts.op_ok (Engine.d_disk st)) ops ->
+  exists r, EngineScan.tx_get st ops path k = r /\
+    EngineTxReads.rd_matches k (EngineTxReads.ref_lookup path (EngineAbs.sem_tx ops (EngineAbs.abs_db st)) k) r.
+Proof. exact EngineTxScan.tx_get_reads. Qed.
+Print Assumptions C07_tx_get.
+
+(* non-vacuity: a reachable state, a transaction that empties a whole leaf, nested buckets, a refused put *)
+Check EngineTxScanEx.exS_pages_wf. Check EngineTxScanEx.exS_empty_leaf. Check EngineTxScanEx.exS_computed.
+Check EngineTxScanEx.exS_by_theorem.
+Print Assumptions EngineTxScanEx.exS_by_theorem.
